@@ -65,6 +65,7 @@ def eval_formula(f, x, y, d, v):
 
 def check(ctx):
     ctx.rule('C18.L', 'algebraic laws of ==, < and hash over all orderings of three ids')
+    ctx.rule('C18.V', 'the converting constructor stores the value it digested')
     ctx.rule('C18.W', 'AnyId selects the hashed map')
     seen = set()
     for tu in ctx.tus:
@@ -85,6 +86,17 @@ def check(ctx):
                 reads = {r for r in reads if r in ('digest', 'value')}
                 ctx.ob('C18.L', f, 'std::hash<AnyId> reads only the digest (ids that compare equal have equal digests, hence equal hashes)',
                        reads == {'digest'}, detail='fields read: %s' % sorted(reads))
+    # the constructor digests the value and then stores it: the value stored is the one supplied only if nothing consumed it in
+    # between (a forwarding constructor that forwards twice stores a moved-from value whenever the digester takes by value)
+    from ..moves import MoveAnalysis
+    for tu in ctx.tus:
+        ma = MoveAnalysis(tu)
+        for f in tu.fns:
+            if f.cls == 'AnyId' and f.kind == 'ctor' and f.file.endswith('anyid.h') and f.params and not f.d.get('ctor') in ('copy', 'move'):
+                vs, _ = ma.violations(f)
+                ctx.ob('C18.V', f, 'the value is digested and stored without being moved from in between', not vs,
+                       detail='\n'.join(v['msg'] for v in vs[:3]), key_detail='value consumed')
+    ctx.require_min('C18.V', 1)
     ctx.require(len(seen) >= 2, 'C18.L: expected AnyId with both storage kinds (value-comparable and empty) in the witness units, found %d' % len(seen))
     ctx.require_min('C18.L', 3)
     witness.check_static_unit(ctx, 'C18.W', os.path.join(extract.VERIF, 'witness', 's_select.cpp'), 'AnyId is hashable and selects unordered_map')
